@@ -100,8 +100,8 @@ def rewrite(src, tracers, fname):
     return out, pristine
 
 
-def export_pair(out, pristine):
-    I = astexport.Interner()
+def export_pair(out, pristine, I=None):
+    I = astexport.Interner() if I is None else I
     order = astexport.traversal(pristine)
     idmap = {id(n): i for i, n in enumerate(order)}
     src_txt = astexport.enc(pristine, I, None)
